@@ -1919,9 +1919,18 @@ class GroupBy:
         n: Optional[int] = None,
     ):
         value_list, value_names = convert_data_to_arr_list_and_keys(values)
-        # (pandas would rebuild a polars column as naive UTC and lose its time zone)
+        # (pandas would rebuild a polars / pyarrow column as naive UTC and lose its time zone)
         value_list = [
-            val.to_pandas() if isinstance(val, pl.Series) else val for val in value_list
+            (
+                val.to_pandas()
+                if isinstance(val, pl.Series)
+                else (
+                    val.to_pandas(types_mapper=pd.ArrowDtype)
+                    if isinstance(val, (pa.Array, pa.ChunkedArray))
+                    else val
+                )
+            )
+            for val in value_list
         ]
         common_index = _validate_input_lengths_and_indexes(value_list)
         if len(value_list[0]) != len(self):
